@@ -697,8 +697,7 @@ impl<B: BufRead> Reader<B> {
     pub fn read_event(&mut self) -> Result<Event, Error> {
         loop {
             #[cfg(feature = "verif-hooks")]
-            crate::verif_hooks::FIBEX_XML_EVENTS
-                .fetch_add(1, std::sync::atomic::Ordering::Relaxed);
+            crate::verif_hooks::FIBEX_XML_EVENTS.fetch_add(1, std::sync::atomic::Ordering::Relaxed);
             match self.xml_reader.read_event(&mut self.buf)? {
                 XmlEvent::Start(ref e) => match e.local_name().as_ref() {
                     B_PDU => {
